@@ -78,8 +78,8 @@ def _classes():
 
 
 def SIX():
-    import simfile.sm as sm
-    return tuple(sm.SM_CHART_PROPERTIES)
+    from props.constants_common import STATED_SM_CHART_FIELDS
+    return tuple(STATED_SM_CHART_FIELDS)
 
 
 def in_six(k):
@@ -423,3 +423,7 @@ def _step(obj, model, op, kind, six, decls):
 
 from pyvc.xcheck import OrderedDictProbe   # noqa: E402
 THOROUGH_BOUNDED = [OrderedDictProbe()]
+
+# tables the statement pins down by value (props/constants_common.py)
+from props.constants_common import ClosedConstants   # noqa: E402
+UNITS = list(UNITS) + [ClosedConstants('sm-chart-fields')]
